@@ -19,7 +19,7 @@ from .. import rig as R, ref, gen, qcore
 from ..orch import h
 
 ID = "C13"
-TECHNIQUE = 'runtime monitoring - per (connection, subscription id) automaton fed from the boundary log; exhaustive symbol sequences to depth 3/4 under two pacings and consumers, random sequences to depth 40, failing stored queries, REQ bursts with default settings; end-to-end shard: hostile subscription ids and ill-formed REQs over a real server (EOSE or NOTICE, never silence, never a closed connection)'
+TECHNIQUE = 'runtime monitoring - per (connection, subscription id) automaton fed from the boundary log; exhaustive symbol sequences to depth 3/4 under two pacings and consumers, random sequences to depth 40, failing stored queries, REQ bursts with default settings; end-to-end shard: hostile subscription ids and ill-formed REQs over a real server (EOSE or NOTICE, never silence, never a closed connection); REQ/CLOSE/replacement cycles on one worker while another worker process accepts a stream of matching events (no EVENT after the marker that proves the CLOSE was processed), and on a connection the relay is slowing down with real sleeps'
 LEVEL = "exploration"
 EXHAUSTIVE = {"quick": True, "thorough": True}
 RULE = (
@@ -42,7 +42,7 @@ ASSUMPTIONS = [
     "LMDB backend over /verif/shim; SQL = SQLite",
 ]
 MIN_NONTRIVIAL = {"quick": 800, "thorough": 8000}
-REQUIRED_COUNTERS = ["e2e.e2e_reqs", "e2e.e2e_refused_reqs", "clause.eose", "clause.refused_notice", "clause.after_close", "clause.limit", "clause.after_exit", "clause.answered_despite_fault", "clause.answered_in_burst"]
+REQUIRED_COUNTERS = ["e2e.e2e_reqs", "e2e.e2e_refused_reqs", "e2e.e2e_close_cycles", "e2e.e2e_throttled_close_checks", "clause.eose", "clause.refused_notice", "clause.after_close", "clause.limit", "clause.after_exit", "clause.answered_despite_fault", "clause.answered_in_burst"]
 SHARD_TIMEOUT = {"quick": 600, "thorough": 3200}
 
 F1 = {"kinds": [1]}
@@ -59,6 +59,7 @@ def e2e_plan(tier, seed):
     out = []
     for i in range(1 if tier == "quick" else 4):
         out += [{"mode": "e2e", "e2e": "wire", "backend": b, "seed": seed * 7919 + 100 + i, "nevents": 30} for b in ("sql", "lmdb")]
+        out += [{"mode": "e2e", "e2e": "c13", "backend": b, "workers": 2, "seed": seed * 7919 + i, "cycles": 120 if tier == "quick" else 400} for b in ("sql", "lmdb")]
     return out
 
 
